@@ -201,8 +201,8 @@ func geom2Shp(g geom.Geom) (shp.Shape, error) {
 		// The rectangle is written with its closing corner. (Left to
 		// geom2polygon, a box of zero height would not get one, because its
 		// first and fourth corners already coincide.)
-		ring := g.(*geom.Bounds).Polygons()[0][0]
-		ring = append(ring[:len(ring):len(ring)], ring[0])
+		b := g.(*geom.Bounds)
+		ring := geom.Path{b.Min, {X: b.Max.X, Y: b.Min.Y}, b.Max, {X: b.Min.X, Y: b.Max.Y}, b.Min}
 		return geom2polygon(geom.Polygon{ring}), nil
 	case geom.LineString:
 		return geom2polyLine(geom.MultiLineString{g.(geom.LineString)}), nil
